@@ -108,6 +108,10 @@ LINKS = {
                atoms={"BB": {}, "+SA": {"resname": "A", "replace": {"atomname": None}}},
                inter={}, edges=[("BB", "+SA", {})]),
 }
+# condensation-like link: bonds BB to the next residue and removes the side atom bonded to that BB (a leaving group in the
+# residue that makes the bond, not in the one it bonds to)
+LINKS["rm0"] = dict(resname=["A", "B", "C", "D"], atoms={"SA": {"replace": {"atomname": None}}},
+                    inter={"bonds": [I(["BB", "+BB"], ["1", "0.44", "440"])]})
 # residue names given on some atoms only: BB / +BB carry them, SA / +SC1 (same residues) do not
 LINKS["partial"] = dict(resname=None, atoms={"BB": {"resname": "A"}, "+BB": {"resname": "C"}},
                         inter={"bonds": [I(["BB", "+BB"], ["1", "0.37", "7000"])],
